@@ -7,6 +7,8 @@ import os
 import pickle
 import random
 import shutil
+import signal
+import threading
 import tempfile
 import zlib
 from datetime import datetime, timedelta
@@ -380,7 +382,10 @@ class RecordingTaskState(L.TaskState):
         )
 
 
-class HarnessHang(Exception):
+CALL_TIMEOUT_S = 20
+
+
+class HarnessHang(BaseException):   # (BaseException: must not be booked as a task failure by the code under test)
     pass
 
 
@@ -584,9 +589,20 @@ def run_real(case, workdir):
             try:
                 if RUN_HOOK is not None:
                     RUN_HOOK.begin(events)
+                # per-call watchdog (main thread only): a run_tasks that never comes back - e.g. a close() that waits for
+                # workers nobody releases - is a finding (status HANG), not a reason for the whole exploration to time out
+                use_alarm = threading.current_thread() is threading.main_thread()
+                if use_alarm:
+                    def _on_alarm(signum, frame):
+                        raise HarnessHang('run_tasks did not return within %d s' % CALL_TIMEOUT_S)
+                    old_alarm = signal.signal(signal.SIGALRM, _on_alarm)
+                    signal.alarm(CALL_TIMEOUT_S)
                 try:
                     returned = lab.run_tasks(req, bust_cache=bool(ph['bust']), disable_progress=True, disable_top=True)
                 finally:
+                    if use_alarm:
+                        signal.alarm(0)
+                        signal.signal(signal.SIGALRM, old_alarm)
                     if RUN_HOOK is not None:
                         RUN_HOOK.end()
                 status = 'returned ' + ','.join(f'{t.k}:{code(v)}' for t, v in returned.items())
